@@ -457,7 +457,8 @@ def parameter_typed_attributes(repo: Repo) -> set[str]:
             t = norm(ann)
             if "ParameterType" in t or t in ("Parameter", "Parameter | None") or "list[Parameter]" in t or "dict[str, Parameter]" in t:
                 out.add(name)
-    return out
+    # names that are also ordinary attribute names of non-model objects (MatrixContainer.matrix, ...) are too generic to decide on
+    return out - {"matrix", "parameter"}
 
 
 def check_no_parameter_state_in_constructors(ctx, rule: str) -> None:
